@@ -14,14 +14,19 @@ THEOREMS = {
         "Dawgs.C13.Props.andnot_fallback_correct_partial",
         "Dawgs.C13.Props.clone_independent",
         "Dawgs.C13.Props.wrapper_same_answers",
+        "Dawgs.C13.Props.wrapper_same_answers_old",
         "Dawgs.C13.Props.type_switch_as_modelled",
-        "Dawgs.C13.Props.wrapper_linearizable_single",
-        "Dawgs.C13.Props.wrapper_deadlock_free_refuted_self",
-        "Dawgs.C13.Props.wrapper_deadlock_free_refuted_abba",
-        "Dawgs.C13.Props.wrapper_deadlock_free_partial",
+        "Dawgs.C13.Props.wrapper_linearizable",
+        "Dawgs.C13.Props.wrapper_deadlock_free",
+        "Dawgs.C13.Props.wrapper_deadlock_free_any",
+        "Dawgs.C13.Props.wrapper_deadlock_free_live",
+        "Dawgs.C13.Props.wrapper_deadlock_free_old_refuted_self",
+        "Dawgs.C13.Props.wrapper_deadlock_free_old_refuted_abba",
+        "Dawgs.C13.Props.wrapper_deadlock_free_old_partial",
         "Dawgs.C13.Props.c13_seq_fixed",
         "Dawgs.C13.Props.c13_seq_current_refuted",
-        "Dawgs.C13.Props.c13_full_refuted",
+        "Dawgs.C13.Props.c13_full",
+        "Dawgs.C13.Props.c13_full_old_refuted",
     ],
 }
 
@@ -111,7 +116,7 @@ SPEC = {
             "a binary operation returned with a non-empty receiver or operand, or a deadlock/panic/concurrent run was observed; distinct = distinct "
             "op-line sequences (sha1)",
     "expected_branches": ["path.native", "path.fallback", "path.non-duplex-operand", "operand.self.b32", "operand.self.b64",
-                          "deadlock.abba", "deadlock.or", "gen.dense_run", "gen.exhaustive_cases", "gen.run_cases", "gen.alias64_cases",
+                          "abba.returned", "pairs.runs", "operand.self.ts32", "operand.self.ts64", "gen.dense_run", "gen.exhaustive_cases", "gen.run_cases", "gen.alias64_cases",
                           "conc.runs", "pair.and.b32/ts32", "pair.and.ts32/ts32", "pair.and.b64/ts64", "pair.and.ts64/ts64",
                           "pair.xor.ts64/b64", "pair.or.ts32/b32"],
     "trusted_base": ["RoaringBitmap v2.19.0 native operations assumed to be exact sets (Add, Remove, Contains, Or, And, AndNot, Xor, Clone, Clear, "
@@ -126,8 +131,8 @@ SPEC = {
                     "outside the extracted lock skeleton are covered only by the -race run of suite conc13 (thorough)"],
     "explanation": "Lean: fallbacks Or/Xor proved equal to set union / symmetric difference for all operand sets; And/AndNot fallbacks (iterate the "
                    "receiver while removing from it) refuted by witness on an exact cursor model of the roaring iterator, proved correct for the "
-                   "collect-then-remove repair; lock LTS: linearizability of one wrapper, deadlock-freedom refuted (self operand, ABBA) and proved "
-                   "when operands are not wrappers. T-tie: lock skeleton and type-switch shapes regenerated from the source and closed by decide.",
+                   "collect-then-remove repair; lock LTS with the snapshot-then-lock protocol of lock.go: linearizability and deadlock-freedom for arbitrary "
+                   "(also wrapper, also self) operands proved; the protocol before hooks/C13-fix2.patch refuted (self operand, ABBA). T-tie: lock skeleton and type-switch shapes regenerated from the source and closed by decide.",
 }
 
 MANIFEST = {
@@ -135,10 +140,11 @@ MANIFEST = {
     "technique": "Lean 4 proofs about a transcription of DAWGS' type switches, fallback loops and mutex wrappers (exact cursor model of roaring's "
                  "iterator under removal; lock-level LTS) + differential correspondence with the Go code + go/ast fact extraction closed by decide",
     "text": "Lean theorems for all receiver and operand sets: the Or and Xor fallbacks equal union / symmetric difference; the And and AndNot fallbacks "
-            "as written are refuted (they iterate the receiver while removing from it) and proved exact for the collect-then-remove repair, with the "
-            "bounds that do hold today; clones are independent; a wrapper gives the same answers as the wrapped bitmap; on the lock LTS every "
-            "interleaving of callers of one wrapper is equivalent to a sequential order, and deadlock-freedom is refuted for wrapper operands "
-            "(self operand, ABBA) and proved when operands are not wrappers. The model is compared with the real code on every ordered pairing of "
+            "as first written are refuted (they iterated the receiver while removing from it) and proved exact for the collect-then-remove repair now "
+            "in /repo; clones are independent; a wrapper gives the same answers as the wrapped bitmap; on the lock LTS of the snapshot-then-lock "
+            "protocol every interleaving of callers of any number of wrappers, with arbitrary (also wrapper, also self) operands, is per wrapper a "
+            "sequential order with atomically read operands, and no reachable state is deadlocked; the protocol before the repair is refuted "
+            "(self operand, ABBA). The model is compared with the real code on every ordered pairing of "
             "{bitmap32, bitmap64, threadSafe(bitmap32), threadSafe(bitmap64)}, exhaustively on a small boundary universe and on random histories "
             "every run; lock skeleton and type-switch shapes are re-extracted from the source every run.",
     "note": "Trusted: Lean kernel; RoaringBitmap's native operations as exact sets (the tie found three defects of its in-place Xor, listed as known "
